@@ -62,6 +62,9 @@ type discoverConn struct {
 
 	localAddr   net.Addr
 	messageChan chan *Message
+	// closeCh tells readLoop to stop; messageChan itself is never closed, a reader blocked on a full
+	// messageChan (a server that answers many times) would otherwise panic with "send on closed channel"
+	closeCh chan struct{}
 }
 
 func listen(localAddr string) (*discoverConn, error) {
@@ -82,13 +85,15 @@ func listen(localAddr string) (*discoverConn, error) {
 		conn:        conn,
 		localAddr:   conn.LocalAddr(),
 		messageChan: make(chan *Message, 10),
+		closeCh:     make(chan struct{}),
 	}, nil
 }
 
 func (c *discoverConn) Close() error {
-	if c.messageChan != nil {
-		close(c.messageChan)
-		c.messageChan = nil
+	select {
+	case <-c.closeCh:
+	default:
+		close(c.closeCh)
 	}
 	return c.conn.Close()
 }
@@ -102,9 +107,13 @@ func (c *discoverConn) readLoop() {
 		}
 		buf = buf[:n]
 
-		c.messageChan <- &Message{
+		select {
+		case c.messageChan <- &Message{
 			Body: buf,
 			Addr: addr.String(),
+		}:
+		case <-c.closeCh:
+			return
 		}
 	}
 }
